@@ -2,6 +2,8 @@ package main
 
 import (
 	"fmt"
+	"os"
+	"path/filepath"
 	"sort"
 	"strconv"
 	"strings"
@@ -9,6 +11,7 @@ import (
 	"sync/atomic"
 	"time"
 
+	"verif/harness/host"
 	"verif/harness/model"
 	"verif/harness/resp"
 	"verif/harness/verdict"
@@ -160,6 +163,9 @@ type c10Case struct {
 	issuer   string // self | other
 	position string // before-multi | after-multi
 	style    int    // how the key gets watched (index into c10WatchStyles)
+	// persisted: the emulator has a persist path, and a complete snapshot pass happens between the write and EXEC (the
+	// saver's bookkeeping of "changed since the last snapshot" must not be what decides whether a watched key changed)
+	persisted bool
 }
 
 // c10WatchStyles: the ways a key can end up in the watch set. w is always the key the row modifies.
@@ -247,8 +253,15 @@ func c10Run(r *verdict.Run, e *emu, cs c10Case) {
 			}
 		}
 	}
+	snapshot := func() {
+		if cs.persisted && ok && !waitSaved(e.child) {
+			r.Inconclusive("no periodic save pass observed (saveall hooks)")
+			ok = false
+		}
+	}
 	if cs.position == "before-multi" {
 		issue()
+		snapshot()
 		if cs.w.rewatch {
 			step(A, sa, "A", "WATCH", "w")
 			step(A, sa, "A", "WATCH", "o", "w", "nokey")
@@ -257,6 +270,7 @@ func c10Run(r *verdict.Run, e *emu, cs c10Case) {
 	step(A, sa, "A", "MULTI")
 	if cs.position == "after-multi" {
 		issue()
+		snapshot()
 	}
 	step(A, sa, "A", "SET", "marker", "1")
 	ex, exExp := step(A, sa, "A", "EXEC")
@@ -272,6 +286,9 @@ func c10Run(r *verdict.Run, e *emu, cs c10Case) {
 	aborted := ex.Null
 	ran := ex.Kind == '*' && !ex.Null && len(ex.Elems) == 1
 	key := fmt.Sprintf("%s/%s/%s/%s/watch-style-%d", cs.w.name, cs.w.state, cs.issuer, cs.position, cs.style)
+	if cs.persisted {
+		key += "/snapshot-before-exec"
+	}
 	rep := map[string]any{"script": log, "expect_abort": cs.w.modify}
 	// cross-check: the model must agree with the explicit table
 	modelAbort := exExp.Val.Null && exExp.Pred == nil && exExp.Err == ""
@@ -342,9 +359,23 @@ func checkC10(r *verdict.Run) {
 			cases = append(cases, c)
 		}
 	}
+	// a sample of the cases again on an emulator with a persist path, with a snapshot pass between the write and EXEC
+	{
+		stride := tierPick(r, 23, 5)
+		var extra []c10Case
+		for i := 0; i < len(cases); i += stride {
+			c := cases[i]
+			if c.w.waitMs > 0 {
+				continue
+			}
+			c.persisted = true
+			extra = append(extra, c)
+		}
+		cases = append(cases, extra...)
+	}
 	r.Rule = fmt.Sprintf("exhaustive matrix: %d write/control rows (every effective write command per key type and state, reads, failing writes, writes to other keys, natural expiry, WATCH dropped by UNWATCH/DISCARD/EXEC) x issuer {watching connection, other connection} x position {between WATCH and MULTI, between MULTI and EXEC} x 8 ways of watching the key (all 8 for a write by the other connection before MULTI, rotating otherwise: alone, with other keys, in a second WATCH that lists already watched keys before or after it, twice); "+
 		"each case on a fresh emulator: WATCH w; [write]; MULTI; [write]; SET marker 1; EXEC - EXEC must be null and marker absent iff the row is an effective write; the reference model is run on the same script and must agree with the table (else inconclusive). "+
-		"Plus the schedule dimension: 4-8 connections increment a shared string counter / hash field / list length with WATCH-read-MULTI-write-EXEC under yields injected around the data store lock; every successful EXEC must have written a distinct value and the final value must equal the number of successful EXECs. distinct = (row, state, issuer, position, outcome) + concurrent configurations", len(table))
+		"a sample of the cases runs again with a persist path and a complete snapshot pass between the write and EXEC. Plus the schedule dimension: 4-8 connections increment a shared string counter / hash field / list length with WATCH-read-MULTI-write-EXEC under yields injected around the data store lock; every successful EXEC must have written a distinct value and the final value must equal the number of successful EXECs. distinct = (row, state, issuer, position, outcome) + concurrent configurations", len(table))
 	r.Set("matrix_rows", len(table))
 	r.Set("matrix_cases", len(cases))
 	r.SetExhaustive(true)
@@ -367,12 +398,21 @@ func checkC10(r *verdict.Run) {
 					return
 				}
 			}
-			e, err := startEmu(c, "")
+			persist := ""
+			if cases[i].persisted {
+				dir, derr := os.MkdirTemp(host.ScratchRoot(), "c10-persist-")
+				if derr != nil {
+					continue
+				}
+				defer os.RemoveAll(dir)
+				persist = filepath.Join(dir, "snap")
+			}
+			e, err := startEmu(c, persist)
 			if err != nil {
 				r.Count("infra_retries", 1)
 				c.Stop()
 				c, _ = startChild(false)
-				if e, err = startEmu(c, ""); err != nil {
+				if e, err = startEmu(c, persist); err != nil {
 					r.Inconclusive("infra: " + err.Error())
 					continue
 				}
